@@ -33,6 +33,7 @@ def run(repo, rep):
     from . import c03, c08
 
     rep.run_borrowed(c08, {"C08-e": "C02-f"}, repo)
+    rule_weight_buffers(repo, rep)
     rep.run_borrowed(c03, {"C03-e": "C02-g"}, repo)
     rep.clause("C02-h", "the memory mode and arena cache size that bound the regions are the ones the selected configuration section defines (a section's own key overrides what it inherits) [rule shared with C18-b]")
     from . import c18
@@ -367,3 +368,79 @@ def rule_extents(repo, rep, rule):
     rs = [s for s in ast.walk(cd) if isinstance(s, ast.Assign) and norm(s.targets[0]) == "root_sg"]
     rep.check(len(rs) == 1 and norm(rs[0].value) == "nng.get_root_subgraph()", rule, f"{CD}:compiler_driver", "root_sg = nng.get_root_subgraph()", "")
     rep.floor(rule, 7)
+
+
+def rule_weight_buffers(repo, rep):
+    """(f) depth slice k of a buffered weight stream is copied into buffer k % (number of buffers). The encoder records
+    double_buffer_sizes[j] = largest slice with index % 2 == j. With two buffers, buffer j must hold double_buffer_sizes[j]; with
+    ONE buffer (sub-purpose Standard) every slice goes through it, so it must hold the largest slice of all,
+    max(double_buffer_sizes) = max_range_bytes(). The reservation is the tensor's size, i.e. what the published fast-scratch
+    extent is made of."""
+    from ..astutil import single_assignments
+
+    wc = repo.mod("weight_compressor")
+    enc = wc.func("encode_weight_and_scale_tensor")
+    rec = [st for st in ast.walk(enc) if isinstance(st, ast.Assign) and isinstance(st.targets[0], ast.Subscript) and norm(st.targets[0].value) == "double_buffer_sizes"]
+    if len(rec) != 1 or str(norm(rec[0].targets[0].slice)) != "idx % 2" or call_name(rec[0].value) != "max":
+        raise AnalysisError("encode_weight_and_scale_tensor: double_buffer_sizes[idx % 2] = max(...) not recognised")
+    mr = wc.func("NpuWeightTensor.max_range_bytes")
+    if str(norm(mr.body[-1])) != "return max(self.double_buffer_sizes)":
+        raise AnalysisError("NpuWeightTensor.max_range_bytes is no longer max(double_buffer_sizes)")
+    hg = repo.mod("high_level_command_stream_generator")
+    sel = [x for x in ast.walk(hg.tree) if isinstance(x, ast.Assign) and isinstance(x.value, ast.BinOp) and isinstance(x.value.op, ast.Mod) and "len(op_info.buffered_weight_tensors)" in str(norm(x.value.right))]
+    rep.check(len(sel) == 1 and str(norm(sel[0].value.left)) == "depth_idx", "C02-f", "ethosu/vela/high_level_command_stream_generator.py:generate_high_level_commands_for_sched_op",
+              "slice k is copied into buffer k % len(buffered_weight_tensors)", str(norm(sel[0].value)) if sel else "not found")
+    sch = repo.mod("scheduler")
+    pw = sch.func("Scheduler.propose_weight_buffering")
+    site = "ethosu/vela/scheduler.py:Scheduler.propose_weight_buffering"
+    calls = sorted(calls_in(pw, "self.buffer_tensor"), key=lambda c_: c_.lineno)
+    if len(calls) != 2:
+        raise AnalysisError(f"propose_weight_buffering: {len(calls)} buffer_tensor calls (2 expected)")
+    sa = {}
+    for st in ast.walk(pw):
+        if isinstance(st, ast.Assign) and len(st.targets) == 1 and isinstance(st.targets[0], ast.Name):
+            sa.setdefault(st.targets[0].id, []).append(st)
+    for v_ in sa.values():
+        v_.sort(key=lambda st: st.lineno)
+    MAXFORMS = ("encoded_weights.max_range_bytes()", "max(encoded_weights.double_buffer_sizes)")
+
+    def covers_all(e, at_line):
+        t = str(norm(e))
+        if t in MAXFORMS:
+            return True
+        if isinstance(e, ast.Call) and call_name(e) == "min" and len(e.args) == 2 and {str(norm(a_)) for a_ in e.args} & set(MAXFORMS) and "len(encoded_weights.buffer)" in {str(norm(a_)) for a_ in e.args}:
+            return True  # min(whole stream, largest slice)
+        if isinstance(e, ast.Name) and e.id in sa:
+            prior = [st for st in sa[e.id] if st.lineno < at_line]
+            return bool(prior) and covers_all(prior[-1].value, prior[-1].lineno) and not any(isinstance(x, ast.AugAssign) and str(norm(x.target)) == e.id and x.lineno < at_line for x in ast.walk(pw))
+        return False
+
+    def only_double(call):
+        """is the call reached only when the purpose is DoubleBuffer?"""
+        cur = call
+        while cur is not None and cur is not pw:
+            par = sch.parents.get(cur)
+            if isinstance(par, ast.If) and str(norm(par.test)) in ("weight_tensor_purpose == TensorSubPurpose.DoubleBuffer", "TensorSubPurpose.DoubleBuffer == weight_tensor_purpose") and any(cur is b for b in par.body):
+                return True
+            cur = par
+        return False
+
+    for k, call in enumerate(calls):
+        size = call.args[2]
+        if only_double(call):
+            rep.check(str(norm(size)) == f"encoded_weights.double_buffer_sizes[{k}]", "C02-f", site, f"buffer {k} (double buffering only) holds the largest slice with index % 2 == {k}", str(norm(size)))
+            continue
+        at = call.lineno
+        hops = 0
+        while isinstance(size, ast.Name) and size.id in sa and hops < 3 and not covers_all(size, at):
+            prior = [st for st in sa[size.id] if st.lineno < at]
+            if not prior:
+                break
+            size, at, hops = prior[-1].value, prior[-1].lineno, hops + 1
+        ok = covers_all(size, at)
+        if not ok and isinstance(size, ast.IfExp) and "DoubleBuffer" in str(norm(size.test)):
+            dbl, single = (size.body, size.orelse) if isinstance(size.test, ast.Compare) and isinstance(size.test.ops[0], ast.Eq) else (size.orelse, size.body)
+            ok = str(norm(dbl)) == f"encoded_weights.double_buffer_sizes[{k}]" and covers_all(single, at)
+        rep.check(ok, "C02-f", site, f"buffer {k} is also the only buffer of the single-buffer (Standard) case: it holds the largest depth slice of all (max_range_bytes)",
+                  f"size is `{str(norm(size))}` = largest *even-indexed* slice: with one buffer the odd-indexed slices are copied into it as well (demonstrated: slices of 752 and 37040 bytes, "
+                  "--arena-cache-size 37400 on ethos-u65-256: fast scratch published as 752 bytes, DMA and weight reads reach byte 37040)")
